@@ -30,6 +30,7 @@ CONSTANTS
   SubTargets = {"A", "B"}
   AutoVals = {}
   SubOneshot = {FALSE}
+  UdVals = {0}
   Senders = {}
   QuitCodes = {1}
   ForeignOps = {}
